@@ -160,12 +160,20 @@ def gen_case(rng: random.Random, k: int) -> Dict[str, Any]:
     if raised is None and got != want:
         py_msgs.append(f"C12/instructions| the instructions returned {got} are not the assignment solutions {want}")
     ranges = []
+    km_per_unit = []
+    from nrel.hive.util.units import MILE_TO_KM, WH_TO_KWH
+
     for vid, veh in sorted(sim.vehicles.items()):
         mech = env.mechatronics.get(veh.mechatronics_id)
         ranges.append([n.get("veh", vid), None if mech is None else q(mech.range_remaining_km(veh))])
+        # the nominal consumption from the mechatronics' own attributes (not through range_remaining_km)
+        if mech is not None and hasattr(mech, "nominal_watt_hour_per_mile"):
+            km_per_unit.append([n.get("veh", vid), q(MILE_TO_KM / (mech.nominal_watt_hour_per_mile * WH_TO_KWH))])
+        elif mech is not None and hasattr(mech, "nominal_miles_per_gallon"):
+            km_per_unit.append([n.get("veh", vid), q(mech.nominal_miles_per_gallon * MILE_TO_KM)])
     return {
         "op": "dispatch", "id": f"d{k}", "sim": enc_sim(n, sim), "cfg": {"validKinds": list(valid), "matchRange": q(match_range), "baseRange": q(base_range)},
-        "ranges": ranges, "calls": out_calls, "cost": [[n.get("veh", a), [n.get("req", b), c]] for (a, b), c in sorted(cost_tbl.items())],
+        "ranges": ranges, "kmPerUnit": km_per_unit, "calls": out_calls, "cost": [[n.get("veh", a), [n.get("req", b), c]] for (a, b), c in sorted(cost_tbl.items())],
         "pyMsgs": py_msgs, "raised": raised,
         "meta": {"fleets": [str(f) for f in fleet_order], "valid": list(valid), "match_range": match_range, "sizes": [[len(c["V"]), len(c["R"])] for c in calls],
                  "acts": sorted({type(v.vehicle_state).__name__ for v in sim.vehicles.values()})},
